@@ -94,12 +94,14 @@ theorem FI_build (N : Nat) (links : List (Nat × List Tgt)) (hwf : TreeWF N link
     (hwk : WKall links ss' D' g') (hsrcq : (gw g'.writers srcKey).queue = [])
     (hresp : g'.resp.length ≤ g'.roots.length ∧ All2 (RA g'.log) (g'.roots.take g'.resp.length) g'.resp)
     (hnofeed : ∀ t, TgtOK t → (∀ key, t ∉ getL links key) → heldD D' ss' g'.sinks t = [])
-    (hwq0 : ∀ key, getL links key = [] → (gw g'.writers key).queue = []) :
+    (hwq0 : ∀ key, getL links key = [] → (gw g'.writers key).queue = [])
+    (hordk : OrdAt g'.log k g'.next) :
     FI N links ss' D' g' := by
   refine { glinks := by rw [e1]; exact h.glinks, nodesLen := hlen, rel := hrel, dflt := ?_, reqsOK := ?_, curOK := ?_,
            inboxOK := ?_, ownNode := ?_, sinkOK := hsink, debtOK := hdebt,
            wkN := wkN_of_all N links hwf ss' D' g' hwk, wkS := fun t hl => ⟨by have := hwk srcKey t hl; rwa [pendK_src] at this, hsrcq⟩,
-           respOK := hresp, nofeed := hnofeed, logBound := hlb, rootsB := hroots, wq0 := hwq0 }
+           respOK := hresp, nofeed := hnofeed, logBound := hlb, rootsB := hroots, wq0 := hwq0,
+           logOrd := logOrd_ext g.log g'.log k g.next g'.next h.logOrd hx hle hordk }
   · intro n hn
     have : ¬ ch n := fun hc => by have := hchN n hc; omega
     rw [hsame n this]; exact h.dflt n hn
